@@ -1,6 +1,516 @@
-//! stub: domain `dual` (filled in by its builder)
-use crate::Ints;
+//! Domain `dual` (C01, C02, C03, C17, C18, C19): dual-number arithmetic on the real code.
+//! Expression trees are encoded in prefix form (see coq/theories/Run/RunDual.v):
+//!   0 name | 1 f | 2 a b (Add) | 3 a f (AddF) | 4 f a (FAdd) | 5 a b (Sub) | 6 a f | 7 f a
+//!   | 8 a b (Mul) | 9 a f | 10 f a | 11 a b (Div) | 12 a f | 13 f a | 14 a (Neg owned) | 15 a (Neg ref)
+//!   | 16 a p (Pow owned) | 17 a p (Pow ref) | 18 Exp | 19 Log | 20 Ncdf | 21 Nicdf | 22 Abs
+use crate::cal::Rd;
+use crate::numenc::*;
+use crate::{f2i, guard, Ints};
+use num_traits::{One, Pow, Signed, Zero};
+use rateslib::dual::{
+    set_order, set_order_clone, ADOrder, Dual, Dual2, Gradient1, Gradient2, MathFuncs, Number, Vars,
+};
+use std::collections::HashMap;
 
-pub fn run(_op: &str, _a: &Ints) -> Ints {
-    vec![-1]
+#[derive(Clone, Debug)]
+pub enum E {
+    Var(String),
+    Cst(f64),
+    Bin(u8, Box<E>, Box<E>),  // 0 add 1 sub 2 mul 3 div
+    BinF(u8, Box<E>, f64),    // a op f
+    FBin(u8, f64, Box<E>),    // f op a
+    Neg(Box<E>),
+    NegRef(Box<E>),
+    Pow(Box<E>, f64),
+    PowRef(Box<E>, f64),
+    Exp(Box<E>),
+    Log(Box<E>),
+    Ncdf(Box<E>),
+    Nicdf(Box<E>),
+    Abs(Box<E>),
+}
+
+pub fn read_expr(r: &mut Rd) -> E {
+    let t = r.next();
+    match t {
+        0 => E::Var(read_name(r)),
+        1 => E::Cst(read_f(r)),
+        2 | 5 | 8 | 11 => {
+            let a = read_expr(r);
+            let b = read_expr(r);
+            E::Bin(((t - 2) / 3) as u8, Box::new(a), Box::new(b))
+        }
+        3 | 6 | 9 | 12 => {
+            let a = read_expr(r);
+            let f = read_f(r);
+            E::BinF(((t - 3) / 3) as u8, Box::new(a), f)
+        }
+        4 | 7 | 10 | 13 => {
+            let f = read_f(r);
+            let a = read_expr(r);
+            E::FBin(((t - 4) / 3) as u8, f, Box::new(a))
+        }
+        14 => E::Neg(Box::new(read_expr(r))),
+        15 => E::NegRef(Box::new(read_expr(r))),
+        16 => {
+            let a = read_expr(r);
+            E::Pow(Box::new(a), read_f(r))
+        }
+        17 => {
+            let a = read_expr(r);
+            E::PowRef(Box::new(a), read_f(r))
+        }
+        18 => E::Exp(Box::new(read_expr(r))),
+        19 => E::Log(Box::new(read_expr(r))),
+        20 => E::Ncdf(Box::new(read_expr(r))),
+        21 => E::Nicdf(Box::new(read_expr(r))),
+        22 => E::Abs(Box::new(read_expr(r))),
+        _ => panic!("bad expr tag"),
+    }
+}
+
+pub fn eval_f(e: &E, env: &HashMap<String, f64>) -> f64 {
+    match e {
+        E::Var(v) => env[v],
+        E::Cst(c) => *c,
+        E::Bin(o, a, b) => {
+            let (x, y) = (eval_f(a, env), eval_f(b, env));
+            match o { 0 => x + y, 1 => x - y, 2 => x * y, _ => x / y }
+        }
+        E::BinF(o, a, f) => {
+            let x = eval_f(a, env);
+            match o { 0 => x + f, 1 => x - f, 2 => x * f, _ => x / f }
+        }
+        E::FBin(o, f, a) => {
+            let x = eval_f(a, env);
+            match o { 0 => f + x, 1 => f - x, 2 => f * x, _ => f / x }
+        }
+        E::Neg(a) | E::NegRef(a) => -eval_f(a, env),
+        E::Pow(a, p) | E::PowRef(a, p) => eval_f(a, env).powf(*p),
+        E::Exp(a) => eval_f(a, env).exp(),
+        E::Log(a) => eval_f(a, env).ln(),
+        E::Ncdf(a) => MathFuncs::norm_cdf(&eval_f(a, env)),
+        E::Nicdf(a) => MathFuncs::inv_norm_cdf(&eval_f(a, env)),
+        E::Abs(a) => eval_f(a, env).abs(),
+    }
+}
+
+macro_rules! eval_impl {
+    ($name:ident, $ty:ty) => {
+        pub fn $name(e: &E, env: &HashMap<String, f64>) -> $ty {
+            match e {
+                E::Var(v) => <$ty>::new(env[v], vec![v.clone()]),
+                E::Cst(c) => <$ty>::new(*c, vec![]),
+                E::Bin(o, a, b) => {
+                    let (x, y) = ($name(a, env), $name(b, env));
+                    match o { 0 => &x + &y, 1 => &x - &y, 2 => &x * &y, _ => &x / &y }
+                }
+                E::BinF(o, a, f) => {
+                    let x = $name(a, env);
+                    match o { 0 => &x + f, 1 => &x - f, 2 => &x * f, _ => &x / f }
+                }
+                E::FBin(o, f, a) => {
+                    let x = $name(a, env);
+                    match o { 0 => f + &x, 1 => f - &x, 2 => f * &x, _ => f / &x }
+                }
+                E::Neg(a) => -$name(a, env),
+                E::NegRef(a) => -&$name(a, env),
+                E::Pow(a, p) => $name(a, env).pow(*p),
+                E::PowRef(a, p) => (&$name(a, env)).pow(*p),
+                E::Exp(a) => $name(a, env).exp(),
+                E::Log(a) => $name(a, env).log(),
+                E::Ncdf(a) => $name(a, env).norm_cdf(),
+                E::Nicdf(a) => $name(a, env).inv_norm_cdf(),
+                E::Abs(a) => $name(a, env).abs(),
+            }
+        }
+    };
+}
+eval_impl!(eval_d1, Dual);
+eval_impl!(eval_d2, Dual2);
+
+fn read_env(r: &mut Rd) -> (Vec<String>, HashMap<String, f64>) {
+    let n = r.next() as usize;
+    let mut names = vec![];
+    let mut env = HashMap::new();
+    for _ in 0..n {
+        let nm = read_name(r);
+        let v = read_f(r);
+        names.push(nm.clone());
+        env.insert(nm, v);
+    }
+    (names, env)
+}
+
+/// a second operand that shares (p = 1) or does not share (p = 0) the Arc of `a` when the
+/// variable lists are equal; when they differ sharing is impossible and p is ignored
+fn share1(a: &Dual, b: Dual, p: i128) -> Dual {
+    if p == 1 && a.vars().len() == b.vars().len() && a.vars().iter().zip(b.vars().iter()).all(|(x, y)| x == y) {
+        Dual::clone_from(a, b.real(), b.dual().clone())
+    } else {
+        b
+    }
+}
+fn share2(a: &Dual2, b: Dual2, p: i128) -> Dual2 {
+    if p == 1 && a.vars().len() == b.vars().len() && a.vars().iter().zip(b.vars().iter()).all(|(x, y)| x == y) {
+        Dual2::clone_from(a, b.real(), b.dual().clone(), b.dual2().clone())
+    } else {
+        b
+    }
+}
+
+fn adorder(o: i128) -> ADOrder {
+    match o { 0 => ADOrder::Zero, 1 => ADOrder::One, _ => ADOrder::Two }
+}
+fn ob(b: bool) -> Ints { vec![b as i128] }
+
+pub fn run(_op: &str, a: &Ints) -> Ints {
+    let mut r = Rd::new(a);
+    let op = r.next();
+    match op {
+        // ---- C01: expression on Dual: plain value, result, gradient1 over the env names
+        1 => guard(|| {
+            let (names, env) = read_env(&mut r);
+            let e = read_expr(&mut r);
+            let mut out = vec![f2i(eval_f(&e, &env))];
+            let d = eval_d1(&e, &env);
+            write_dual(&d, &mut out);
+            let g = d.gradient1(names.clone());
+            out.push(g.len() as i128);
+            out.extend(g.iter().map(|x| f2i(*x)));
+            Ok(out)
+        }),
+        // ---- C02: expression on Dual2: plain value, result, gradient1, gradient2, Dual::from
+        2 => guard(|| {
+            let (names, env) = read_env(&mut r);
+            let e = read_expr(&mut r);
+            let mut out = vec![f2i(eval_f(&e, &env))];
+            let d = eval_d2(&e, &env);
+            write_dual2(&d, &mut out);
+            let g = d.gradient1(names.clone());
+            out.push(g.len() as i128);
+            out.extend(g.iter().map(|x| f2i(*x)));
+            let h = d.gradient2(names.clone());
+            out.push(h.shape()[0] as i128);
+            out.push(h.shape()[1] as i128);
+            out.extend(h.iter().map(|x| f2i(*x)));
+            write_dual(&Dual::from(&d), &mut out);
+            write_dual(&Dual::from(d.clone()), &mut out);
+            Ok(out)
+        }),
+        // ---- C03/C19: binary operator on two Dual / Dual2: kind opcode p a b
+        //      opcode 0 add 1 sub 2 mul 3 div 4 rem 5 == 6 < 7 <= 8 > 9 >=
+        3 => guard(|| {
+            let kind = r.next();
+            let oc = r.next();
+            let p = r.next();
+            let mut out = vec![];
+            if kind == 1 {
+                let x = read_dual(&mut r);
+                let y = share1(&x, read_dual(&mut r), p);
+                match oc {
+                    0 => write_dual(&(&x + &y), &mut out),
+                    1 => write_dual(&(&x - &y), &mut out),
+                    2 => write_dual(&(&x * &y), &mut out),
+                    3 => write_dual(&(&x / &y), &mut out),
+                    4 => write_dual(&(&x % &y), &mut out),
+                    5 => out = ob(x == y),
+                    6 => out = ob(x < y),
+                    7 => out = ob(x <= y),
+                    8 => out = ob(x > y),
+                    _ => out = ob(x >= y),
+                }
+            } else {
+                let x = read_dual2(&mut r);
+                let y = share2(&x, read_dual2(&mut r), p);
+                match oc {
+                    0 => write_dual2(&(&x + &y), &mut out),
+                    1 => write_dual2(&(&x - &y), &mut out),
+                    2 => write_dual2(&(&x * &y), &mut out),
+                    3 => write_dual2(&(&x / &y), &mut out),
+                    4 => write_dual2(&(&x % &y), &mut out),
+                    5 => out = ob(x == y),
+                    6 => out = ob(x < y),
+                    7 => out = ob(x <= y),
+                    8 => out = ob(x > y),
+                    _ => out = ob(x >= y),
+                }
+            }
+            Ok(out)
+        }),
+        // ---- C19: dual (op) float and float (op) dual: kind opcode side(0 = d op f, 1 = f op d) d f
+        4 => guard(|| {
+            let kind = r.next();
+            let oc = r.next();
+            let side = r.next();
+            let mut out = vec![];
+            if kind == 1 {
+                let x = read_dual(&mut r);
+                let f = read_f(&mut r);
+                match (oc, side) {
+                    (0, 0) => write_dual(&(&x + f), &mut out),
+                    (0, _) => write_dual(&(f + &x), &mut out),
+                    (1, 0) => write_dual(&(&x - f), &mut out),
+                    (1, _) => write_dual(&(f - &x), &mut out),
+                    (2, 0) => write_dual(&(&x * f), &mut out),
+                    (2, _) => write_dual(&(f * &x), &mut out),
+                    (3, 0) => write_dual(&(&x / f), &mut out),
+                    (3, _) => write_dual(&(f / &x), &mut out),
+                    (4, 0) => write_dual(&(&x % f), &mut out),
+                    (4, _) => write_dual(&(f % &x), &mut out),
+                    (5, 0) => out = ob(x == f),
+                    (5, _) => out = ob(f == x),
+                    (6, 0) => out = ob(x < f),
+                    (6, _) => out = ob(f < x),
+                    (7, 0) => out = ob(x <= f),
+                    (7, _) => out = ob(f <= x),
+                    (8, 0) => out = ob(x > f),
+                    (8, _) => out = ob(f > x),
+                    (_, 0) => out = ob(x >= f),
+                    (_, _) => out = ob(f >= x),
+                }
+            } else {
+                let x = read_dual2(&mut r);
+                let f = read_f(&mut r);
+                match (oc, side) {
+                    (0, 0) => write_dual2(&(&x + f), &mut out),
+                    (0, _) => write_dual2(&(f + &x), &mut out),
+                    (1, 0) => write_dual2(&(&x - f), &mut out),
+                    (1, _) => write_dual2(&(f - &x), &mut out),
+                    (2, 0) => write_dual2(&(&x * f), &mut out),
+                    (2, _) => write_dual2(&(f * &x), &mut out),
+                    (3, 0) => write_dual2(&(&x / f), &mut out),
+                    (3, _) => write_dual2(&(f / &x), &mut out),
+                    (4, 0) => write_dual2(&(&x % f), &mut out),
+                    (4, _) => write_dual2(&(f % &x), &mut out),
+                    (5, 0) => out = ob(x == f),
+                    (5, _) => out = ob(f == x),
+                    (6, 0) => out = ob(x < f),
+                    (6, _) => out = ob(f < x),
+                    (7, 0) => out = ob(x <= f),
+                    (7, _) => out = ob(f <= x),
+                    (8, 0) => out = ob(x > f),
+                    (8, _) => out = ob(f > x),
+                    (_, 0) => out = ob(x >= f),
+                    (_, _) => out = ob(f >= x),
+                }
+            }
+            Ok(out)
+        }),
+        // ---- C19: unary: kind opcode d   (0 abs 1 signum 2 is_zero 3 neg owned 4 neg ref 5 zero 6 one
+        //      7 is_positive 8 is_negative)
+        5 => guard(|| {
+            let kind = r.next();
+            let oc = r.next();
+            let mut out = vec![];
+            if kind == 1 {
+                let x = read_dual(&mut r);
+                match oc {
+                    0 => write_dual(&x.abs(), &mut out),
+                    1 => write_dual(&x.signum(), &mut out),
+                    2 => out = ob(x.is_zero()),
+                    3 => write_dual(&(-x.clone()), &mut out),
+                    4 => write_dual(&(-&x), &mut out),
+                    5 => write_dual(&Dual::zero(), &mut out),
+                    6 => write_dual(&Dual::one(), &mut out),
+                    7 => out = ob(x.is_positive()),
+                    _ => out = ob(x.is_negative()),
+                }
+            } else {
+                let x = read_dual2(&mut r);
+                match oc {
+                    0 => write_dual2(&x.abs(), &mut out),
+                    1 => write_dual2(&x.signum(), &mut out),
+                    2 => out = ob(x.is_zero()),
+                    3 => write_dual2(&(-x.clone()), &mut out),
+                    4 => write_dual2(&(-&x), &mut out),
+                    5 => write_dual2(&Dual2::zero(), &mut out),
+                    6 => write_dual2(&Dual2::one(), &mut out),
+                    7 => out = ob(x.is_positive()),
+                    _ => out = ob(x.is_negative()),
+                }
+            }
+            Ok(out)
+        }),
+        // ---- C19: sum of a list: kind n d*
+        6 => guard(|| {
+            let kind = r.next();
+            let n = r.next() as usize;
+            let mut out = vec![];
+            if kind == 1 {
+                let v: Vec<Dual> = (0..n).map(|_| read_dual(&mut r)).collect();
+                write_dual(&v.into_iter().sum::<Dual>(), &mut out);
+            } else {
+                let v: Vec<Dual2> = (0..n).map(|_| read_dual2(&mut r)).collect();
+                write_dual2(&v.into_iter().sum::<Dual2>(), &mut out);
+            }
+            Ok(out)
+        }),
+        // ---- C17: gradients by name: kind(1|2) which(1 gradient1 | 2 gradient2 | 3 manifold) d names
+        7 => guard(|| {
+            let kind = r.next();
+            let which = r.next();
+            let mut out = vec![];
+            if kind == 1 {
+                let x = read_dual(&mut r);
+                let ws = read_names(&mut r);
+                let g = x.gradient1(ws);
+                out.push(g.len() as i128);
+                out.extend(g.iter().map(|x| f2i(*x)));
+            } else {
+                let x = read_dual2(&mut r);
+                let ws = read_names(&mut r);
+                match which {
+                    1 => {
+                        let g = x.gradient1(ws);
+                        out.push(g.len() as i128);
+                        out.extend(g.iter().map(|x| f2i(*x)));
+                    }
+                    2 => {
+                        let h = x.gradient2(ws);
+                        out.push(h.shape()[0] as i128);
+                        out.push(h.shape()[1] as i128);
+                        out.extend(h.iter().map(|x| f2i(*x)));
+                    }
+                    _ => {
+                        let m = x.gradient1_manifold(ws);
+                        out.push(m.len() as i128);
+                        for d in m.iter() {
+                            write_dual2(d, &mut out);
+                        }
+                    }
+                }
+            }
+            Ok(out)
+        }),
+        // ---- C18: Number: 10 set_order(n, order, names) | 11 set_order_clone | 12 binary (opcode p a b)
+        //      13 number (op) f64 / f64 (op) number | 14 unary | 15 From conversions | 16 sum
+        10 | 11 => guard(|| {
+            let n = read_number(&mut r);
+            let o = adorder(r.next());
+            let ws = read_names(&mut r);
+            let mut out = vec![];
+            let res = if op == 10 { set_order(n, o, ws) } else { set_order_clone(&n, o, ws) };
+            write_number(&res, &mut out);
+            Ok(out)
+        }),
+        12 => guard(|| {
+            let oc = r.next();
+            let x = read_number(&mut r);
+            let y = read_number(&mut r);
+            let mut out = vec![];
+            match oc {
+                0 => write_number(&(&x + &y), &mut out),
+                1 => write_number(&(&x - &y), &mut out),
+                2 => write_number(&(&x * &y), &mut out),
+                3 => write_number(&(&x / &y), &mut out),
+                4 => write_number(&(&x % &y), &mut out),
+                5 => out = ob(x == y),
+                6 => out = ob(x < y),
+                7 => out = ob(x <= y),
+                8 => out = ob(x > y),
+                _ => out = ob(x >= y),
+            }
+            Ok(out)
+        }),
+        13 => guard(|| {
+            let oc = r.next();
+            let side = r.next();
+            let x = read_number(&mut r);
+            let f = read_f(&mut r);
+            let mut out = vec![];
+            match (oc, side) {
+                (0, 0) => write_number(&(&x + f), &mut out),
+                (0, _) => write_number(&(f + &x), &mut out),
+                (1, 0) => write_number(&(&x - f), &mut out),
+                (1, _) => write_number(&(f - &x), &mut out),
+                (2, 0) => write_number(&(&x * f), &mut out),
+                (2, _) => write_number(&(f * &x), &mut out),
+                (3, 0) => write_number(&(&x / f), &mut out),
+                (3, _) => write_number(&(f / &x), &mut out),
+                (4, 0) => write_number(&(&x % f), &mut out),
+                (4, _) => write_number(&(f % &x), &mut out),
+                (5, 0) => out = ob(x == f),
+                (5, _) => out = ob(f == x),
+                (6, 0) => out = ob(x < f),
+                (6, _) => out = ob(f < x),
+                (7, 0) => out = ob(x <= f),
+                (7, _) => out = ob(f <= x),
+                (8, 0) => out = ob(x > f),
+                (8, _) => out = ob(f > x),
+                (_, 0) => out = ob(x >= f),
+                (_, _) => out = ob(f >= x),
+            }
+            Ok(out)
+        }),
+        // unary on Number: 0 neg(owned) 1 neg(ref) 2 pow(p) 3 exp 4 log 5 ncdf 6 nicdf 7 abs 8 signum
+        //                  9 is_zero 10 zero 11 one 12 pow ref
+        14 => guard(|| {
+            let oc = r.next();
+            let x = read_number(&mut r);
+            let p = read_f(&mut r);
+            let mut out = vec![];
+            match oc {
+                0 => write_number(&(-x.clone()), &mut out),
+                1 => write_number(&(-&x), &mut out),
+                2 => write_number(&x.clone().pow(p), &mut out),
+                3 => write_number(&x.exp(), &mut out),
+                4 => write_number(&x.log(), &mut out),
+                5 => write_number(&x.norm_cdf(), &mut out),
+                6 => write_number(&x.inv_norm_cdf(), &mut out),
+                7 => write_number(&x.abs(), &mut out),
+                8 => write_number(&x.signum(), &mut out),
+                9 => out = ob(x.is_zero()),
+                10 => write_number(&Number::zero(), &mut out),
+                11 => write_number(&Number::one(), &mut out),
+                _ => write_number(&(&x).pow(p), &mut out),
+            }
+            Ok(out)
+        }),
+        // From conversions: Number -> f64, Dual, Dual2 (owned and by reference)
+        15 => guard(|| {
+            let x = read_number(&mut r);
+            let mut out = vec![];
+            out.push(f2i(f64::from(&x)));
+            out.push(f2i(f64::from(x.clone())));
+            let skip1 = matches!(x, Number::Dual2(_)) && false;
+            let _ = skip1;
+            write_dual(&Dual::from(&x), &mut out);
+            write_dual(&Dual::from(x.clone()), &mut out);
+            write_dual2(&Dual2::from(&x), &mut out);
+            write_dual2(&Dual2::from(x.clone()), &mut out);
+            Ok(out)
+        }),
+        16 => guard(|| {
+            let n = r.next() as usize;
+            let v: Vec<Number> = (0..n).map(|_| read_number(&mut r)).collect();
+            let mut out = vec![];
+            write_number(&v.into_iter().sum::<Number>(), &mut out);
+            Ok(out)
+        }),
+        // constructors (C20 reuse): 20 Dual::try_new(re, names, du) | 21 Dual2::try_new(re, names, du, dd)
+        20 => guard(|| {
+            let re = read_f(&mut r);
+            let ws = read_names(&mut r);
+            let nd = r.next() as usize;
+            let du = read_fs(&mut r, nd);
+            match Dual::try_new(re, ws, du) {
+                Ok(d) => { let mut out = vec![]; write_dual(&d, &mut out); Ok(out) }
+                Err(_) => Err(()),
+            }
+        }),
+        21 => guard(|| {
+            let re = read_f(&mut r);
+            let ws = read_names(&mut r);
+            let nd = r.next() as usize;
+            let du = read_fs(&mut r, nd);
+            let ndd = r.next() as usize;
+            let dd = read_fs(&mut r, ndd);
+            match Dual2::try_new(re, ws, du, dd) {
+                Ok(d) => { let mut out = vec![]; write_dual2(&d, &mut out); Ok(out) }
+                Err(_) => Err(()),
+            }
+        }),
+        _ => vec![-1],
+    }
 }
